@@ -48,6 +48,9 @@ func c03Parts() (prefixes [][]gen.Op, kinds []string, rights []*gen.Pipeline, co
 		tbl("R", &gen.As{Name: gen.Ident{Name: "Q"}}),
 		tbl("R", &gen.Top{N: num("2"), By: gen.SortTerm{X: gen.Col("y")}}, take1),
 		tbl("R", take1, sortBy("y")),
+		// reads the name that the left prefix `as A` defines (undefined - and skipped - with other prefixes)
+		tbl("A"),
+		tbl("A", gt("x"), proj("k", "x")),
 		tbl("R", &gen.Join{Right: tbl("C"), On: []gen.Expr{gen.Col("k")}}),
 		tbl("R", gt("y"), &gen.Join{Kind: "inner", Right: tbl("C"), On: []gen.Expr{&gen.Binary{Op: "==", X: lr("$left", "k"), Y: lr("$right", "k")}}}, proj("k", "y")),
 	}
@@ -73,6 +76,7 @@ func c03Parts() (prefixes [][]gen.Op, kinds []string, rights []*gen.Pipeline, co
 		{&gen.Sort{Kw: "sort", Terms: []gen.SortTerm{{X: gen.Col("y")}}}, &gen.Count{}},
 		{&gen.Sort{Kw: "sort", Terms: []gen.SortTerm{{X: gen.Col("y"), Dir: "asc"}}}, &gen.Summarize{Cols: []gen.Column{{Name: &gen.Ident{Name: "n"}, X: &gen.Call{Func: "count"}}}, By: []gen.Column{{X: gen.Col("x")}}, HasBy: true}},
 		{&gen.Join{Kind: "leftouter", Right: tbl("C"), On: []gen.Expr{eq(lr("$left", "x"), lr("$right", "w"))}}},
+		{&gen.Join{Kind: "inner", Right: tbl("C", &gen.As{Name: gen.Ident{Name: "R2"}}, gt("w")), On: []gen.Expr{eq(lr("$left", "x"), lr("$right", "w"))}}, &gen.Count{}},
 		{gt("y"), &gen.Join{Right: tbl("C", gt("w")), On: []gen.Expr{eq(lr("$left", "y"), lr("$right", "w"))}}, &gen.Count{}},
 	}
 	return
